@@ -150,7 +150,6 @@ pub static LIB: &[LibEntry] = &[
     e(RStr, "match", &[Regex], Ret::Any),
     e(RStr, "match", &[RegexG], Ret::Any),
     e(RStr, "search", &[Regex], Ret::Num),
-    e(RStr, "localeCompare", &[Arg::Str], Ret::Num),
     e(RStr, "toString", &[], Ret::Str),
     e(RStr, "valueOf", &[], Ret::Str),
     e(RStr, "normalize", &[], Ret::Str),
